@@ -270,6 +270,7 @@ class WebSocket:
         self.frame_buffer.recv_buffer = []
         self.cont_frame.cont_data = None
         self.cont_frame.recving_frames = None
+        self.cont_frame.utf8_decoder = None
         self.sock, addrs = connect(
             url, self.sock_opt, proxy_info(**options), options.pop("socket", None)
         )
